@@ -823,6 +823,14 @@ class Unit:
                 a0 = bo + mo.start()
                 edits.append((a0, mo.end() - mo.start(), [(newt + '\n' * missing, ('repo', repo_file, line(a0)))]))
                 self.report['rewrites'].append({'rule': rule, 'file': repo_file, 'line': line(a0), 'before': mo.group(0), 'after': newt})
+        # rule R35 (every file): `.extend(x)` -> `.extend_v(x)` (shim::ExtendShim) wherever no file rule rewrites the call
+        taken = [(a_, a_ + l_) for (a_, l_, _) in edits if l_ > 0]
+        for mo in re.finditer(r'\.extend\(', m[bo:item.end]):
+            a0 = bo + mo.start(); a1 = bo + mo.end()
+            if any(a0 < e1 and s1 < a1 for (s1, e1) in taken):
+                continue
+            edits.append((a0, a1 - a0, [('.extend_v(', ('repo', repo_file, line(a0)))]))
+            self.report['rewrites'].append({'rule': 'R35', 'file': repo_file, 'line': line(a0), 'before': '.extend(', 'after': '.extend_v('})
         # rule R22: after `let x = "literal";` reveal the literal's length/ASCII facts (text copied from the source)
         for mo in re.finditer(r'\blet\s+(?:mut\s+)?[A-Za-z_][A-Za-z0-9_]*\s*=\s*"', m[bo:item.end]):
             q0 = bo + mo.end() - 1
